@@ -69,6 +69,8 @@ UNITS["C02"] = [
 UNITS["C15"] = [
     dict(kind="structural", name="c15_ddl", check="schema_ddl", file="crates/klukai-types/src/schema.rs", fn="apply_schema",
          trusted=["syntactic reading of the statement texts and of the guard/branch pair (vx/structural.py schema_ddl)"]),
+    dict(kind="structural", name="c15_reload", check="schema_reload", file="crates/klukai-types/src/schema.rs", fn="init_schema",
+         trusted=["SQLite object names (tables, indexes) are unique within a database; __corro_schema.name holds them"]),
     dict(kind="structural", name="c15_atomic", check="schema_atomic", file="crates/klukai-agent/src/api/public/mod.rs", fn="execute_schema",
          trusted=["rusqlite: a Transaction dropped without commit() rolls back; SQLite DDL is transactional"]),
     dict(kind="verus", name="c15_schema", template="specs/c15_schema.vrs",
